@@ -90,6 +90,12 @@ type c12shared struct {
 	statDat []string
 	types   []*gen.T
 	schemas []avro.Schema
+	// a codec that is shared but has never been used before the goroutines start (lazily initialised
+	// state would be initialised concurrently); values include nil pointers to collections
+	coldT     *gen.T
+	coldCodec avro.Codec
+	coldVals  []reflect.Value
+	coldEnc   [][]byte
 }
 
 func c12prepare(c *core.Ctx, r *rand.Rand) *c12shared {
@@ -126,6 +132,34 @@ func c12prepare(c *core.Ctx, r *rand.Rand) *c12shared {
 		if cont, err := refavro.ReadContainer(buf.Bytes()); err == nil {
 			for _, d := range cont.AllRecords() {
 				sh.statDat = append(sh.statDat, refavro.Render(d))
+			}
+		}
+	}
+	// cold shared codec: expectations come from a separately built codec instance
+	sh.coldT = gen.StructOf(
+		gen.Fld("PS", "ps", false, gen.PtrTo(gen.SliceOf(gen.Leaf(gen.KInt64)))),
+		gen.Fld("PM", "pm", false, gen.PtrTo(gen.MapOf(gen.Leaf(gen.KString)))),
+		gen.Fld("PP", "pp", false, gen.PtrTo(gen.PtrTo(gen.SliceOf(gen.Leaf(gen.KString))))),
+		gen.Fld("T", "t", false, gen.Leaf(gen.KTime)),
+		gen.Fld("NS", "ns", true, gen.Leaf(gen.KNullString)),
+		gen.Fld("S", "s", true, gen.Leaf(gen.KString)),
+	)
+	if cs, err := lib.SchemaFor(sh.coldT.RT()); err == nil {
+		warm, err1 := lib.CodecFor(cs, sh.coldT.RT())
+		cold, err2 := lib.CodecFor(cs, sh.coldT.RT())
+		if err1 == nil && err2 == nil {
+			sh.coldCodec = cold
+			wb := avro.NewWriteBuf(nil)
+			for k := 0; k < 6; k++ {
+				o := gen.ValOpts{MaxMapEntries: 1, NoBigStrings: true}
+				if k%2 == 0 {
+					o.Mode = gen.ModeEmpty // nil pointers to collections
+				}
+				v := gen.NewValue(r, sh.coldT, o)
+				wb.Reset()
+				warm.Write(wb, unsafe.Pointer(v.UnsafeAddr()))
+				sh.coldVals = append(sh.coldVals, v)
+				sh.coldEnc = append(sh.coldEnc, append([]byte{}, wb.Bytes()...))
 			}
 		}
 	}
@@ -243,6 +277,14 @@ func runC12(c *core.Ctx, i int) {
 						fail(kind, d)
 					}
 					rb.ExtractResourceBank().Close()
+				case op < 18 && sh.coldCodec != nil: // encode with the never-before-used shared codec
+					kind = "encode-cold-shared"
+					j := gr.IntN(len(sh.coldVals))
+					wb.Reset()
+					sh.coldCodec.Write(wb, unsafe.Pointer(sh.coldVals[j].UnsafeAddr()))
+					if string(wb.Bytes()) != string(sh.coldEnc[j]) {
+						fail(kind, fmt.Sprintf("bytes %x differ from those of a codec used alone %x", wb.Bytes(), sh.coldEnc[j]))
+					}
 				case op < 26: // encode with the shared codec into a private buffer
 					kind = "encode-shared"
 					j := gr.IntN(len(sh.encs))
